@@ -179,6 +179,11 @@ fn main() {
             }
             println!("blocks with non-empty inverse scratch: {:?}", v);
         }
+        "c18ref" => {
+            let mix: usize = args.get(2).and_then(|s| s.parse().ok()).unwrap_or_else(|| usage());
+            let inst: usize = args.get(3).and_then(|s| s.parse().ok()).unwrap_or_else(|| usage());
+            std::process::exit(sched::reference_main(mix, inst));
+        }
         "items" => {
             let check = find(&args[2]).unwrap_or_else(|| std::process::exit(2));
             let tier = Tier::parse(&args[3]).unwrap_or_else(|| usage());
